@@ -1043,6 +1043,22 @@ def replay_m(path):
     d = json.load(open(path))
     if d.get('kind') == 'eval_impl':
         return replay_eval_impl(path)
+    if d.get('kind') == 'seqeq':
+        err = build_tool('render')
+        inp = '\n'.join(json.dumps(q) for q in d['requests']) + '\n'
+        p = subprocess.run([os.path.join(BUILD, 'native', 'debug', 'render')], input=inp, stdout=subprocess.PIPE, stderr=subprocess.PIPE, text=True, timeout=120)
+        outs = [json.loads(l) for l in p.stdout.split('\n') if l.strip()]
+        bad = []
+        for q, o in zip(d['requests'], outs):
+            t = o.get('ok')
+            if t is None:
+                bad.append((q['src'], o))
+                continue
+            le, ge, eq, ne, inn, uq = t.split('|')
+            if not ((eq == 'True') == (le == 'True' and ge == 'True') and (ne == 'True') != (eq == 'True') and inn == eq and (uq == '1') == (eq == 'True')):
+                bad.append((q['src'], t))
+        print(json.dumps(bad[:5], indent=1))
+        return bool(bad)
     if d.get('kind') == 'compare':
         err = build_tool('render')
         inp = '\n'.join(json.dumps(q) for q, _ in d['requests']) + '\n'
@@ -3800,6 +3816,155 @@ def run_sort_comparators(prop, tier, seed):
             ev['problems'].append('engine M: filter %s orders wrongly natively (%s) although its comparators decide through cmp_helper' % (f, msgs[0][:240]))
     log('[%s] engine M (ordering filters): %s; native: %d renders, %d filters misbehaving' % (prop, ' '.join('%s=%s' % (r['filter'], r['verdict']) for r in results), len(outs), len(bad)))
     ev['coverage'] = dict(queries=len(results), results=results, native_scenarios=len(outs), native_scenarios_failing=len(bad), check='ordering_filters')
+    ev['wall_s'] = round(time.time() - t0, 1)
+    return ev
+
+
+# ---------------------------------------------------------------------------------------------
+# Value == Value on sequences / iterables (C07): on the (Seq|Iterable, Seq|Iterable) arm of PartialEq::eq the answer
+# comes from comparing the items (Iterator::eq) on every path, except where an operand cannot be iterated at all -
+# so that == agrees with the item-wise Ord::cmp also when only one side knows its length
+# ---------------------------------------------------------------------------------------------
+def check_seq_eq_by_items(mir):
+    text = function_text(mir, r'^fn value::<impl at [^>]*>::eq\(_1: &value::Value, _2: &value::Value\)')
+    if text is None:
+        return dict(function='<Value as PartialEq>::eq', verdict='unknown', conflict='Value::eq not found in the MIR')
+    fn = parse_function(text)
+    blocks = {b: blk for b, blk in fn['blocks'].items() if not blk['cleanup']}
+    adj, preds = cfg(fn)
+    der, _ = derive_map(fn)
+    item_eq = [b for b, blk in blocks.items() if re.match(r'<Box<dyn Iterator<Item = value::Value>[^>]*> as Iterator>::eq::<', call_of(blk['term'])[1] or '')]
+    repr_locals = set()
+    iter_locals = set()
+    for blk in blocks.values():
+        dst, callee = call_of(blk['term'])
+        if dst and callee and re.search(r'DynObject>::repr\(|impl DynObject>::repr\(', callee):
+            repr_locals.add(dst)
+        if dst and callee and re.match(r'DynObject::try_iter\(', callee):
+            iter_locals.add(dst)
+    if len(item_eq) != 1 or not repr_locals:
+        return dict(function='<Value as PartialEq>::eq', verdict='unknown', conflict='item-wise comparison / repr dispatch not found (%d, %d)' % (len(item_eq), len(repr_locals)))
+    target = item_eq[0]
+
+    def reach(start, avoid=()):
+        seen, todo = {start}, [start]
+        while todo:
+            b = todo.pop()
+            for _, t_ in adj.get(b, []):
+                if t_ in blocks and t_ not in seen and t_ not in avoid:
+                    seen.add(t_)
+                    todo.append(t_)
+        return seen
+    # arm entries: targets of a switch on a repr discriminant from which the item comparison is reachable and which
+    # are not themselves such a switch
+    def switch_on(b, type_rx):
+        """does block b switch on the discriminant of a place of the given type (also a tuple field of it)?"""
+        m = re.match(r'switchInt\((?:move|copy) (_\d+)\)', blocks[b]['term'])
+        if not m:
+            return False
+        for st in blocks[b]['stmts']:
+            x = re.match(re.escape(m.group(1)) + r' = discriminant\((.*)\);$', st)
+            if x and re.search(type_rx, x.group(1)):
+                return True
+            if x and x.group(1) in repr_locals and type_rx == REPR_RX:
+                return True
+        return False
+    REPR_RX = r'ObjectRepr'
+
+    def is_repr_switch(b):
+        return switch_on(b, REPR_RX)
+    entries = set()
+    for b in blocks:
+        if is_repr_switch(b):
+            for _, t_ in adj[b]:
+                if t_ in blocks and not is_repr_switch(t_) and target in reach(t_):
+                    entries.add(t_)
+    if len(entries) != 1:
+        return dict(function='<Value as PartialEq>::eq', verdict='unknown', conflict='the (Seq|Iterable, Seq|Iterable) arm was not identified (%s)' % sorted(entries))
+    entry = entries.pop()
+    region = reach(entry)
+    shared = reach('bb0', avoid=(entry,))
+    inner = region - shared
+    s_ = z3.Solver()
+    s_.set('timeout', 30000)
+    D = {b: z3.Int('I_%s' % b) for b in inner}
+    s_.add(D[entry] == 0)
+    exits = 0
+    for b in inner:
+        blk = blocks[b]
+        _, callee = call_of(blk['term'])
+        hit = b == target
+        m = re.match(r'switchInt\((?:move|copy) (_\d+)\) -> \[(.*)\];', blk['term'])
+        none_edge = None
+        if m and switch_on(b, r'Option<(?:std::boxed::)?Box<dyn (?:std::iter::)?Iterator'):
+            tg = dict(x.split(': ') for x in m.group(2).split(', '))
+            none_edge = tg.get('0')
+        for label, t_ in adj[b]:
+            if t_ not in blocks:
+                continue
+            eff = 1 if ((hit and label == 'ok') or (none_edge is not None and t_ == none_edge)) else 0
+            if t_ in inner:
+                s_.add(D[t_] == z3.If(D[b] + eff >= 1, 1, 0))
+            else:
+                s_.add(D[b] + eff >= 1)
+                exits += 1
+    t0 = time.time()
+    r = s_.check()
+    res = dict(function='<Value as PartialEq>::eq', arm_entry=entry, arm_blocks=len(inner), arm_exits=exits, z3_s=round(time.time() - t0, 3))
+    if not exits:
+        res.update(verdict='unknown', conflict='the arm has no exit')
+    elif r == z3.sat:
+        res.update(verdict='sat')
+    elif r == z3.unsat:
+        res.update(verdict='unsat', conflict='the sequence/iterable arm of == can answer without comparing the items (and without an operand failing to iterate)')
+    else:
+        res.update(verdict=str(r))
+    return res
+
+
+def run_seq_equality(prop, tier, seed):
+    t0 = time.time()
+    ev = dict(engine='M', violations=[], known_hits=[], problems=[], coverage={})
+    try:
+        mir = dump_mir(REPO, os.path.join(BUILD, 'mir'))
+    except MirError as e:
+        ev['problems'].append('engine M: %s' % e)
+        return ev
+    res = check_seq_eq_by_items(mir)
+    err = build_tool('render')
+    if err:
+        ev['problems'].append('engine M: render tool did not build')
+        return ev
+    # pairs of equal-by-items sequences / lazy iterables, some of unknown length: ==, <=, >=, in and unique agree
+    exprs = ['[1, 2, 3]', '[3, 2, 1]|reverse', '[1, 2]|chain([3]|reverse)', '[1, 2]|chain([3])', 'range(1, 4)', '(1, 2, 3)|list']
+    reqs = [dict(src='{%% set a = %s %%}{%% set b = %s %%}{{ a <= b }}|{{ a >= b }}|{{ a == b }}|{{ a != b }}|{{ a in [b] }}|{{ [a, b]|unique|length }}' % (x, y), ctx={})
+            for x in exprs for y in exprs]
+    inp = '\n'.join(json.dumps(q) for q in reqs) + '\n'
+    p = subprocess.run([os.path.join(BUILD, 'native', 'debug', 'render')], input=inp, stdout=subprocess.PIPE, stderr=subprocess.PIPE, text=True, timeout=120)
+    outs = [json.loads(l) for l in p.stdout.split('\n') if l.strip()]
+    bad = []
+    for q, o in zip(reqs, outs):
+        t = o.get('ok')
+        if t is None:
+            bad.append('%s: %s' % (q['src'][:70], o))
+            continue
+        le, ge, eq, ne, inn, uq = t.split('|')
+        consistent = (eq == 'True') == (le == 'True' and ge == 'True') and (ne == 'True') != (eq == 'True') and inn == eq and (uq == '1') == (eq == 'True')
+        if not consistent:
+            bad.append('%s renders le|ge|eq|ne|in|unique = %s' % (q['src'][:70], t))
+    if res['verdict'] == 'unsat':
+        if bad:
+            rp = os.path.join(nativelib.replay_dir(), '%s-M-seq-eq.json' % prop)
+            json.dump(dict(engine='M', kind='seqeq', property=prop, mir_finding=res, requests=reqs, how='bin/check %s --replay %s' % (prop, rp)), open(rp, 'w'), indent=1)
+            ev['violations'].append(dict(replay=rp, failed=[dict(desc='%s; natively: %s' % (res['conflict'], bad[0][:220]), loc='minijinja/src/value/mod.rs PartialEq for Value (MIR)')]))
+        else:
+            ev['problems'].append('engine M: %s, but ==, <=, >=, in and unique agree on the whole sequence grid' % res['conflict'])
+    elif res['verdict'] != 'sat':
+        ev['problems'].append('engine M: sequence equality: %s %s' % (res['verdict'], res.get('conflict') or ''))
+    elif bad:
+        ev['problems'].append('engine M: sequence equality: %s although the arm always compares the items' % bad[0][:200])
+    log('[%s] engine M (== on sequences by items): %s; native grid %d pairs, %d inconsistent' % (prop, res['verdict'], len(outs), len(bad)))
+    ev['coverage'] = dict(queries=1, results=[res], native_scenarios=len(outs), native_scenarios_failing=len(bad), check='seq_eq_by_items')
     ev['wall_s'] = round(time.time() - t0, 1)
     return ev
 
